@@ -42,20 +42,20 @@ theorem abs_lt_of_ltP {p a b : Inst} (hp : WfInst p) (ha : SameKind p a) (hb : S
   · have := ikey_le_of_abs hvb hva hkt (by omega)
     omega
 
-theorem mE_abs_sorted (r : Rule) (p : Inst) (nti : Nat) (hr : WfRule r) (hp : WfInst p) (hs : SeedOk r p)
+theorem mE_abs_sorted (r : Rule) (p : Inst) (nti : Nat) (hr : WfRule r) (hp : WfInst p)
     (hsup : MlySup r) (hy : 1901 ≤ p.y) (q : Nat × Int) (hq : mReach r p q) (hq2 : q.1 ≤ 2099) :
     (mE r p nti q).Pairwise (fun a b => absOf a < absOf b) := by
   have hsorted := (mly_loopHyp r p nti hr hp hsup hy).sorted q hq hq2
   refine List.Pairwise.imp_of_mem ?_ hsorted
   intro a b ha hb hab
-  have ia := mE_inst r p nti hr hp hs hsup hy q hq hq2 a ha
-  have ib := mE_inst r p nti hr hp hs hsup hy q hq hq2 b hb
+  have ia := mE_inst r p nti hr hp hsup hy q hq hq2 a ha
+  have ib := mE_inst r p nti hr hp hsup hy q hq hq2 b hb
   have fa := mE_fields r p nti hr hp hsup hy q hq hq2 a ha
   have fb := mE_fields r p nti hr hp hsup hy q hq hq2 b hb
   exact abs_lt_of_ltP hp ia.1 ib.1 (by rw [fa.1]; exact hq2) (by rw [fb.1]; exact hq2) hab
 
 /-- the month's list holds exactly the instances of the month's period -/
-theorem mE_hchar (r : Rule) (p : Inst) (nti : Nat) (hr : WfRule r) (hp : WfInst p) (hs : SeedOk r p)
+theorem mE_hchar (r : Rule) (p : Inst) (nti : Nat) (hr : WfRule r) (hp : WfInst p)
     (hsup : MlySup r) (hy : 1901 ≤ p.y) (hf : r.freq = 2) (q : Nat × Int) (hq : mReach r p q) (hq2 : q.1 ≤ 2099)
     (x : Inst) (hx : x ∈ mE r p nti q) (u : Inst) :
     u ∈ mE r p nti q ↔ Instance r p u ∧ periodOf r.freq u = periodOf r.freq x := by
@@ -67,12 +67,12 @@ theorem mE_hchar (r : Rule) (p : Inst) (nti : Nat) (hr : WfRule r) (hp : WfInst 
   constructor
   · intro hu
     have fu := mE_fields r p nti hr hp hsup hy q hq hq2 u hu
-    exact ⟨mE_inst r p nti hr hp hs hsup hy q hq hq2 u hu, by rw [fu.1, fu.2, fx.1, fx.2]⟩
+    exact ⟨mE_inst r p nti hr hp hsup hy q hq hq2 u hu, by rw [fu.1, fu.2, fx.1, fx.2]⟩
   · rintro ⟨hi, hpe⟩
     obtain ⟨b1, _, _, b4, b5⟩ := (mlyInst_iff r p u).1 hi
     have hxm : 1 ≤ x.m ∧ x.m ≤ 12 := by rw [fx.2]; omega
     obtain ⟨e1, e2⟩ := pIdx_of_period ⟨b1.1, b1.2.1⟩ hxm hpe
-    obtain ⟨t1, t2, t3⟩ := enum_of_exp hp hs (kindOk_of_same b1) b5
+    obtain ⟨t1, t2, t3⟩ := enum_of_exp hp (kindOk_of_same b1) b5
     exact (mem_mE_iff r p nti hr hp hsup q.1 q.2 ⟨by omega, hq2⟩ ⟨h1, h2⟩ u).2
       ⟨by rw [e1, fx.1], by rw [e2, fx.2], b1.2.2.1, b1.2.2.2.1, b4, b1.2.2.2.2.1, t1, t2, t3⟩
 
@@ -91,13 +91,13 @@ theorem posSel_iff_match (pos : List Int) (i n : Nat) (hi : i < n) :
     · right; exact ⟨a, by omega⟩
 
 /-- BYSETPOS for entry `i` of a month's list -/
-theorem mE_setpos (r : Rule) (p : Inst) (nti : Nat) (hr : WfRule r) (hp : WfInst p) (hs : SeedOk r p)
+theorem mE_setpos (r : Rule) (p : Inst) (nti : Nat) (hr : WfRule r) (hp : WfInst p)
     (hsup : MlySup r) (hy : 1901 ≤ p.y) (hf : r.freq = 2) (hpos : r.pos ≠ []) (q : Nat × Int) (hq : mReach r p q)
     (hq2 : q.1 ≤ 2099) (x : Inst) (i : Nat) (hi : (mE r p nti q)[i]? = some x) :
     SetposOk r p x ↔ PosSel r.pos i (mE r p nti q).length := by
   have hx : x ∈ mE r p nti q := List.mem_of_getElem? hi
   have hil : i < (mE r p nti q).length := (List.getElem?_eq_some_iff.1 hi).1
-  rw [setpos_iff r p x hpos (mE r p nti q) (mE_abs_sorted r p nti hr hp hs hsup hy q hq hq2) i hi
-    (mE_hchar r p nti hr hp hs hsup hy hf q hq hq2 x hx), posSel_iff_match r.pos i _ hil]
+  rw [setpos_iff r p x hpos (mE r p nti q) (mE_abs_sorted r p nti hr hp hsup hy q hq hq2) i hi
+    (mE_hchar r p nti hr hp hsup hy hf q hq hq2 x hx), posSel_iff_match r.pos i _ hil]
 
 end Echse.Lemmas.RrMlyRfc
